@@ -100,16 +100,15 @@ type plan struct {
 	midDepth     int
 	midSpec      []int
 	midOrder     int
-	midMiss      bool
 }
 
 func (p plan) String() string {
 	s := fmt.Sprintf("chunk=%d chainIDFail=%d latestFail=%v finFail=%d filterFailAt=%d watchFail=%d", p.chunk, p.chainIDFailN, p.latestFail, p.finFailN, p.filterFailAt, p.watchFailN)
 	if p.midAt >= 0 {
 		if p.midReorg {
-			s += fmt.Sprintf(" midscan@%d=reorg(depth<=%d,new=%v,order=%d,miss=%v)", p.midAt, p.midDepth, p.midSpec, p.midOrder, p.midMiss)
+			s += fmt.Sprintf(" midscan@%d=reorg(depth<=%d,new=%v,order=%d)", p.midAt, p.midDepth, p.midSpec, p.midOrder)
 		} else {
-			s += fmt.Sprintf(" midscan@%d=mine(%v,miss=%v)", p.midAt, p.midSpec[:1], p.midMiss)
+			s += fmt.Sprintf(" midscan@%d=mine(%v)", p.midAt, p.midSpec[:1])
 		}
 	}
 	return s
@@ -475,8 +474,10 @@ func (p *provider) FilterStateUpdate(_ context.Context, from, to uint64) ([]*l1.
 	idx := h.filterCalls
 	h.filterCalls++
 	if idx == h.pl.midAt {
-		// the chain moves on while the client is still scanning (no subscription exists yet: what the node
-		// owes the client is queued and sent once it subscribes)
+		// The chain moves on while the client is still scanning. No subscription exists yet, so the logs of
+		// blocks mined now are never pushed to this client (a later FilterStateUpdate may still return them);
+		// queueing them for the later subscription would deliver logs out of chain order, which no node does.
+		// The Removed copies the property's assumption promises are queued and sent once the client subscribes.
 		if h.pl.midReorg {
 			d := h.pl.midDepth
 			if max := len(h.blocks) - 1 - int(h.fin); d > max {
@@ -487,16 +488,11 @@ func (p *provider) FilterStateUpdate(_ context.Context, from, to uint64) ([]*l1.
 				for len(spec) < d {
 					spec = append(spec, 1)
 				}
-				h.reorgLocked(d, spec, h.pl.midOrder, !h.pl.midMiss)
+				h.reorgLocked(d, spec, h.pl.midOrder, false)
 				h.flagLocked("midscan-reorg")
 			}
 		} else {
-			evs := h.mineLocked(h.pl.midSpec[0])
-			if !h.pl.midMiss {
-				for _, e := range evs {
-					h.pending = append(h.pending, item{e, false})
-				}
-			} else if len(evs) > 0 {
+			if evs := h.mineLocked(h.pl.midSpec[0]); len(evs) > 0 {
 				h.flagLocked("missed-events")
 			}
 			h.flagLocked("midscan-mine")
@@ -834,7 +830,6 @@ func (h *harness) drawPlan(label string) plan {
 		p.midDepth = rapid.IntRange(1, 4).Draw(rt, label+"midDepth")
 		p.midSpec = rapid.SliceOfN(genReorgEvents, 1, 4).Draw(rt, label+"midSpec")
 		p.midOrder = rapid.IntRange(0, 1).Draw(rt, label+"midOrder")
-		p.midMiss = rapid.Bool().Draw(rt, label+"midMiss")
 	}
 	return p
 }
@@ -1183,10 +1178,10 @@ const rule = "rapid-drawn script against the real l1.Client + real Blockchain(me
 // TestRaceL1HeadScript runs the script under the race detector (the client, the feed, the database reads of
 // the background sampler and the harness provider all run concurrently).
 func TestRaceL1HeadScript(t *testing.T) {
-	stats.Check(t, stats.Budget{Quick: 150, Thorough: 2500}, rule, runScript)
+	stats.Check(t, stats.Budget{Quick: 150, Thorough: 1500}, rule, runScript)
 }
 
 // TestPropL1HeadScript is the same check without the race detector (several times faster, so more scripts).
 func TestPropL1HeadScript(t *testing.T) {
-	stats.Check(t, stats.Budget{Quick: 500, Thorough: 8000}, rule, runScript)
+	stats.Check(t, stats.Budget{Quick: 500, Thorough: 5000}, rule, runScript)
 }
